@@ -632,11 +632,12 @@ where
     
     /// Remove a key-value pair
     pub fn remove(&self, key: &K) -> Option<V> {
+        // Node lock first and held throughout: the index entry and its node go away together.
+        let mut nodes = self.nodes.write().ok()?;
         let mut hash_map = self.hash_map.write().ok()?;
         let node_idx = hash_map.remove(key)?;
         drop(hash_map);
         
-        let mut nodes = self.nodes.write().ok()?;
         if (node_idx as usize) >= nodes.len() || !nodes[node_idx as usize].is_valid {
             return None;
         }
